@@ -20,7 +20,9 @@ ELEMS = [("0", "0", 0), ("1", "1", 1), ("127", "127", 127), ("128", "128", 128),
          ("$7F", "$7F", 0x7F), ("$0A", "$0A", 10), ("$1234", "$1234", 0x1234), ("%bin8", "%10000001", 0x81), ("'A", "'A", 65),
          ("equ", "EQ5", 5), ("label", "LB", 0x3000),
          # (from here on: elements used in the explicit lists below only, not in the products)
-         ("'a", "'a", 97), ("'z", "'z", 122), ("'!", "'!", 33)]
+         ("'a", "'a", 97), ("'z", "'z", 122), ("'!", "'!", 33),
+         # other spellings of zero and of small numbers: a sign in front of 0, leading zeros
+         ("-0", "-0", 0), ("$00", "$00", 0), ("007", "007", 7), ("$0000", "$0000", 0)]
 NPROD = 18
 DELIMS = [chr(c) for c in range(33, 127)]          # every printable non-blank character may delimit a string
 STR_ALPHA = ["A", " ", ";", ",", '"', "/", "#", "z", "0", "'"]
@@ -40,6 +42,8 @@ def cases(tier, seed):
                 yield {"d": d, "elems": list(combo)}
         # character constants of lower-case letters and punctuation, alone and inside lists (a list is read by its own code)
         for combo in ([18], [18, 0], [0, 18], [18, 19, 20, 4], [15, 18], [19, 19], [20, 18, 15, 1, 19]):
+            yield {"d": d, "elems": combo}
+        for combo in ([21], [21, 0], [1, 21, 2], [13, 21], [21, 21], [22], [22, 21, 1], [23], [23, 7], [24], [0, 24, 21]):
             yield {"d": d, "elems": combo}
         for n in range(4, 65):
             for k in range(NPROD):
